@@ -3,6 +3,7 @@ package engine
 import (
 	"fmt"
 	"go/types"
+	"math"
 	"strings"
 
 	"golang.org/x/tools/go/ssa"
@@ -42,6 +43,25 @@ func (e *OpEngine) labelledData(name string, dims []int, prefix []sym.Poly) inte
 		vals[i] = e.labelledData(name, dims[1:], append(append([]sym.Poly{}, prefix...), sym.PInt(int64(i))))
 	}
 	return interp.IfaceV{T: e.anySlice(), V: e.M.SliceOf(e.A.AnyT, vals, "data:"+name)}
+}
+
+// mkTensorConst creates an operand every element of which is the constant c (e.g. NaN).
+func (e *OpEngine) mkTensorConst(name string, dims []int, tracked bool, c sym.Expr) interp.PtrV {
+	t := e.mkTensor(name, TensorArg{Dims: concreteDims(dims), Tracked: tracked, Rng: spec.Rng(-10, 10)})
+	e.W.InfoOf(t).Elem = c
+	var fill func(d []int) interp.Value
+	fill = func(d []int) interp.Value {
+		if len(d) == 0 {
+			return interp.IfaceV{T: e.A.FloatT, V: interp.FloatV{E: c}}
+		}
+		vals := make([]interp.Value, d[0])
+		for i := range vals {
+			vals[i] = fill(d[1:])
+		}
+		return interp.IfaceV{T: e.anySlice(), V: e.M.SliceOf(e.A.AnyT, vals, "data:"+name)}
+	}
+	interp.Store(t.C.Fields[e.A.FData], fill(dims))
+	return t
 }
 
 // mkTensorD creates an operand with concrete dims and labelled data.
@@ -124,7 +144,7 @@ func (e *OpEngine) compareData(key, pos string, impl interp.PtrV, specElem sym.E
 		}
 		want := specElem.SubstIdx(m)
 		g := got[fmt.Sprint(idx)]
-		if g.Key() != want.Key() {
+		if !e.sameExpr(g, want, nil) {
 			verdict, wit := e.numericCompare(g, want, nil)
 			if verdict == 1 {
 				e.Findings = append(e.Findings, Finding{Method: e.curMethod, Rule: "D.elements", Construct: key, What: "element", Pos: pos,
@@ -224,8 +244,10 @@ type DataBounds struct {
 	MaxElts int
 }
 
-func QuickDataBounds() DataBounds    { return DataBounds{MaxRank: 3, Sizes: []int{1, 2, 3}, MaxElts: 12} }
-func ThoroughDataBounds() DataBounds { return DataBounds{MaxRank: 4, Sizes: []int{1, 2, 3}, MaxElts: 36} }
+func QuickDataBounds() DataBounds { return DataBounds{MaxRank: 3, Sizes: []int{1, 2, 3}, MaxElts: 12} }
+func ThoroughDataBounds() DataBounds {
+	return DataBounds{MaxRank: 4, Sizes: []int{1, 2, 3}, MaxElts: 36}
+}
 
 func shapesUpTo(b DataBounds, minRank int) [][]int {
 	var out [][]int
@@ -426,11 +448,13 @@ func (e *OpEngine) DataInstances(want func(string) bool, b DataBounds) []*DataCa
 	}
 	// sizes just beyond every block/chunk constant found in the implementation (empty when there is none)
 	thr0, thr1 := e.thresholdShapes(0), e.thresholdShapes(1)
+	thrL := e.largeThresholdShapes()
+	thr0L := append(append([][]int{}, thr0...), thrL...)
 	for _, n := range pointwiseUnary {
 		small := DataBounds{MaxRank: 2, Sizes: []int{1, 2}, MaxElts: 4}
-		unary(n, append(shapesUpTo(small, 0), thr0...), nil, false)
+		unary(n, append(shapesUpTo(small, 0), thr0L...), nil, false)
 	}
-	unary("Scale", append(shapesUpTo(DataBounds{MaxRank: 2, Sizes: []int{1, 2}, MaxElts: 4}, 0), thr0...), func(e *OpEngine, d []int) [][]interp.Value {
+	unary("Scale", append(shapesUpTo(DataBounds{MaxRank: 2, Sizes: []int{1, 2}, MaxElts: 4}, 0), thr0L...), func(e *OpEngine, d []int) [][]interp.Value {
 		return [][]interp.Value{{interp.FloatV{E: sym.SymE("c")}}}
 	}, false)
 	unary("Pow", shapesUpTo(DataBounds{MaxRank: 2, Sizes: []int{1, 2}, MaxElts: 4}, 0), func(e *OpEngine, d []int) [][]interp.Value {
@@ -459,7 +483,11 @@ func (e *OpEngine) DataInstances(want func(string) bool, b DataBounds) []*DataCa
 	}, false)
 	for _, n := range reducers {
 		ordered := n == "MaxAlong" || n == "MinAlong"
-		unary(n, append(withDeep(shapesUpTo(b, 1), 1), thr1...), dimVariants(func(r int) int { return r - 1 }), ordered)
+		sh := append(withDeep(shapesUpTo(b, 1), 1), thr1...)
+		if n != "VarAlong" && n != "StdAlong" {
+			sh = append(sh, thrL...) // linear in the elements: large extents stay cheap
+		}
+		unary(n, sh, dimVariants(func(r int) int { return r - 1 }), ordered)
 	}
 	unary("Reshape", all, func(e *OpEngine, d []int) [][]interp.Value {
 		n := 1
@@ -570,14 +598,72 @@ func (e *OpEngine) DataInstances(want func(string) bool, b DataBounds) []*DataCa
 			}})
 		}
 	}
+	// the same tensor object as both operands, with symbolic elements and with every element NaN: results may not depend on operand identity (NaN is not equal to itself, A-A is not 0 there)
+	for _, n := range append(append([]string{}, comparisons...), "ElMax", "ElMin", "Add", "Sub", "Mul", "Div") {
+		if !want(n) {
+			continue
+		}
+		fn := e.method(n)
+		for _, d := range [][]int{{2}, {2, 2}} {
+			for _, withNaN := range []bool{false, true} {
+				d, withNaN := d, withNaN
+				lbl := fmt.Sprintf("%s A=%s with itself", n, dimsLabel(d))
+				if withNaN {
+					lbl += ", every element NaN"
+				}
+				add(&DataCall{Fn: fn, Label: lbl, Build: func(e *OpEngine) []interp.Value {
+					a := e.mkTensorD("A", d, true, rng)
+					if withNaN {
+						a = e.mkTensorConst("A", d, true, sym.NumF(math.NaN()))
+					}
+					return []interp.Value{a, e.W.Boxed(a)}
+				}})
+			}
+		}
+	}
+	if want("Equals") {
+		fn := e.method("Equals")
+		for _, withNaN := range []bool{false, true} {
+			withNaN := withNaN
+			lbl := "Equals A=[2,2] with itself"
+			if withNaN {
+				lbl += ", every element NaN"
+			}
+			add(&DataCall{Fn: fn, Label: lbl, Build: func(e *OpEngine) []interp.Value {
+				a := e.mkTensorD("A", []int{2, 2}, false, rng)
+				if withNaN {
+					a = e.mkTensorConst("A", []int{2, 2}, false, sym.NumF(math.NaN()))
+				}
+				return []interp.Value{a, e.W.Boxed(a)}
+			}, OnResult: func(e *OpEngine, caseName string, res []interp.Value) {
+				key := "cputensor.(*CPUTensor).Equals"
+				e.did("D.elements", key)
+				bv, ok := res[0].(interp.BoolV)
+				if !ok || !bv.Known || !interp.IsNil(res[1]) {
+					e.undecided("D.elements", key, "equals", e.P.FuncPos(fn), "Equals result not determined ["+lbl+"]")
+					return
+				}
+				if bv.Val != !withNaN {
+					e.find("D.elements", key, "equals-self", e.P.FuncPos(fn), fmt.Sprintf("Equals of a tensor with itself returns %v [%s]: NaN differs from itself, everything else equals itself", bv.Val, lbl))
+				}
+			}})
+		}
+	}
 	bpairs := broadcastPairsC(b)
-	for _, d := range thr0 {
+	for _, d := range thr0L {
 		bpairs = append(bpairs, [2][]int{d, d})
 	}
 	var thrDot, thrMM [][2][]int
-	for _, c := range e.SizeThresholds() {
+	for _, c := range e.smallThresholds() {
 		thrDot = append(thrDot, [2][]int{{c + 1}, {c + 1}})
 		thrMM = append(thrMM, [2][]int{{2, c + 1}, {c + 1, 2}}, [2][]int{{c + 1, 2}, {2, 1}})
+	}
+	for _, c := range e.SizeThresholds() {
+		if c > 40 {
+			// batch counters: c+1 pairs of unit matrices / unit vectors, and one long contraction
+			thrMM = append(thrMM, [2][]int{{c + 1, 1, 1}, {c + 1, 1, 1}}, [2][]int{{1, c + 1}, {c + 1, 1}})
+			thrDot = append(thrDot, [2][]int{{c + 1, 1}, {c + 1, 1}}, [2][]int{{c + 1}, {c + 1}})
+		}
 	}
 	for _, n := range []string{"Add", "Sub", "Mul", "Div"} {
 		binary(n, bpairs, false, nil)
@@ -634,7 +720,11 @@ func (e *OpEngine) DataInstances(want func(string) bool, b DataBounds) []*DataCa
 		}
 		fn := e.method(n)
 		key := "cputensor.(*CPUTensor)." + n
-		for _, d := range scalarShapes {
+		shapes := scalarShapes
+		if n != "Var" && n != "Std" {
+			shapes = append(append([][]int{}, scalarShapes...), thrL...)
+		}
+		for _, d := range shapes {
 			d := d
 			var facts sym.Facts
 			if n == "Max" || n == "Min" {
@@ -1122,7 +1212,7 @@ func (e *OpEngine) compareScalar(key, pos string, got, want interp.Value, label 
 			e.undecided("D.elements", key, "type", pos, "result kinds differ ["+label+"]")
 			return
 		}
-		if g.E.Key() != w.E.Key() {
+		if !e.sameExpr(g.E, w.E, nil) {
 			verdict, wit := e.numericCompare(g.E, w.E, nil)
 			if verdict == 1 {
 				e.Findings = append(e.Findings, Finding{Method: e.curMethod, Rule: "D.elements", Construct: key, What: "value", Pos: pos,
